@@ -89,20 +89,20 @@ type heapRun struct {
 	knownHits    map[string]int
 
 	// position tracking (C06)
-	cbOn     bool
-	lastPos  map[int]int
-	tracked  map[int]bool
-	moves    map[int]int
-	cbBad    string
-	ntPos    bool
+	cbOn    bool
+	lastPos map[int]int
+	tracked map[int]bool
+	moves   map[int]int
+	cbBad   string
+	ntPos   bool
 
 	// NT bookkeeping (C05)
-	maxLen            int
-	pendingDisturb    bool
-	popsSinceDisturb  int
-	nt                bool
-	interiorRemoves   int
-	reorders          int
+	maxLen           int
+	pendingDisturb   bool
+	popsSinceDisturb int
+	nt               bool
+	interiorRemoves  int
+	reorders         int
 }
 
 func (r *heapRun) errf(format string, args ...any) string {
@@ -597,7 +597,6 @@ func (r *heapRun) drain(k int, final bool) string {
 	}
 	return ""
 }
-
 
 func runHeap(c HeapCase, checkPos bool, o *vk.Obs) (*heapRun, string) {
 	r := &heapRun{c: c, checkPos: checkPos, o: o, held: map[int]Elem{}, knownHits: map[string]int{},
